@@ -51,7 +51,7 @@ def Machine.addSection (m : Machine) (s : Sec) : Except BuildErr Machine :=
       match StepIt.new s with
       | .error e => .error (.step e)
       | .ok it =>
-        match collectPairs (it.drain (s.data.length + 1)) with
+        match collectPairs (it.drain (s.data.length + 2)) with
         | .error e => .error (.step e)
         | .ok ps => .ok ⟨m.blocks ++ ps, rd, qd⟩
 
